@@ -41,7 +41,8 @@ class Inliner:
         if dn and dn.startswith("self.") and dn.count(".") == 1:
             m = self.repo.resolve_method(self.kcls, dn.split(".")[1])
             if m is not None:
-                return self.inline(m, call, it, skip_self=True)
+                static = any(dotted(d) == "staticmethod" for d in m.node.decorator_list)
+                return self.inline(m, call, it, skip_self=not static)
         if dn in self.distn.functions:
             return self.inline(self.distn.functions[dn], call, it)
         if dn in SPEC.SCIPY_LOG or dn in SPEC.SCIPY_PLAIN:
@@ -245,6 +246,7 @@ def _check_shape_inputs(repo, res):
 
     def residual(me, yhat, apply_weighting=True):
         ab = Abs({}, {"bool": lambda v: isinstance(v, bool)}, summ, me)
+        ab.self_class = (repo, base)
         kind, v = ab.run_function(resid_fn.node, {"yhat": yhat, "apply_weighting": apply_weighting})
         if kind == "raise":
             raise Raised(v)
@@ -267,7 +269,9 @@ def _check_shape_inputs(repo, res):
             outs = {}
             try:
                 for form, val in (("flat", yh.copy()), ("column", yh.reshape(n, 1))):
-                    kind, out = Abs({}, {}, summ, me).run_function(f.node, {f.params[1]: val})
+                    ab_ = Abs({}, {}, summ, me)
+                    ab_.self_class = (repo, kcls)
+                    kind, out = ab_.run_function(f.node, {f.params[1]: val})
                     outs[form] = (kind, out)
             except A.Undecided as e:
                 res.undecided("R-SHAPEIN", f, method, "outside the modelled subset: %s" % e)
